@@ -40,7 +40,7 @@ def scenarios(tier, seed):
                             seed * 3 + 1, tech=dict(tREFI=refi_ns), max_cycles=400000))
     from . import c02
     out.append(dict(name="apalache-txxd-inductive", kind="apalache-txxd", seed=seed))
-    return out + c02.lockstep_scenarios(tier, seed)[:2] + mux_lockstep_scenarios(tier, seed)
+    return out + c02.lockstep_scenarios(tier, seed)[:2] + mux_lockstep_scenarios(tier, seed) + muxr_lockstep_scenarios(tier, seed)[2:]
 
 
 def mux_lockstep_scenarios(tier, seed):
@@ -56,13 +56,23 @@ def mux_lockstep_scenarios(tier, seed):
     return out
 
 
+def muxr_lockstep_scenarios(tier, seed):
+    """Multiplexer including its REFRESH path (refresher stub + bank-machine grants as environment) against D_MultiplexerR."""
+    variants = [dict(nb=2, nph=2, rdphase=0, wrphase=1, read_latency=3, cwl=2, tWTR=1, tFAW=None, tCCD=1, tRRD=2, read_time=3, write_time=2, pref=0.03),
+                dict(nb=4, nph=1, rdphase=0, wrphase=0, read_latency=4, cwl=2, tWTR=2, tFAW=6, tCCD=2, tRRD=2, read_time=8, write_time=4, pref=0.02),
+                dict(nb=8, nph=4, rdphase=2, wrphase=3, read_latency=5, cwl=5, tWTR=2, tFAW=5, tCCD=1, tRRD=None, read_time=32, write_time=16, pref=0.02),
+                dict(nb=4, nph=4, rdphase=1, wrphase=0, read_latency=6, cwl=4, tWTR=3, tFAW=4, tCCD=2, tRRD=3, read_time=16, write_time=8, pref=0.04)]
+    return [dict(name="lockstep-multiplexer-refresh-%d" % j, kind="lockstep-muxr", seed=seed * 29 + j, ncyc=3000 if tier == "quick" else 12000, params=v)
+            for j, v in enumerate(variants if tier == "quick" else variants * 3)]
+
+
 def _lockstep_mux(sc, workdir):
     from .. import muxlock
-    r = muxlock.run_mux(sc, workdir)
+    r = muxlock.run_mux(sc, workdir, with_refresh=sc.get("kind") == "lockstep-muxr")
     notes = []
     if r["mismatches"]:
-        notes.append("MODEL-DRIFT module=Multiplexer cycle=%s signal=%s (D_Multiplexer no longer equals the code; exhaustive result not bound)"
-                     % (r["mismatches"][0][0], r["mismatches"][0][1:]))
+        notes.append("MODEL-DRIFT module=Multiplexer cycle=%s signal=%s (D_Multiplexer%s no longer equals the code; exhaustive result not bound)"
+                     % (r["mismatches"][0][0], r["mismatches"][0][1:], "R" if sc.get("kind") == "lockstep-muxr" else ""))
     return dict(bad=[], evaluations=r["cycles"], nontrivial=[["lockstep", sc["name"]]] if r["commands"] > 50 else [], traces=1,
                 sample=dict(consts=r["consts"], commands=r["commands"], first=r["sample"][:2]), notes=notes,
                 lockstep=r["cycles"], stats=dict(lockstep_cycles=r["cycles"], lockstep_commands=r["commands"]))
@@ -123,7 +133,7 @@ def execute(sc, workdir):
     if sc.get("kind") == "b3":
         from . import c02
         return c02._b3(sc, workdir)
-    if sc.get("kind") == "lockstep-mux":
+    if sc.get("kind") in ("lockstep-mux", "lockstep-muxr"):
         return _lockstep_mux(sc, workdir)
     if sc.get("kind") == "b3-mux":
         return _b3_mux(sc, workdir)
